@@ -486,8 +486,9 @@ def index_from_search(px, st, args, op):
     if len(args) < 2:
         return False
     idx = args[1]
-    want = 'neg' if op == 'insert' else 'pos'
-    if idx[0] != want or idx[1][0] != 'call' or not re.search(r'::binary_search(_by|_by_key)?$', idx[1][1]):
+    # remove/swap_remove need a found position (< len); insert accepts a found or a not-found position (<= len)
+    wants = ('neg', 'pos') if op == 'insert' else ('pos',)
+    if idx[0] not in wants or idx[1][0] != 'call' or not re.search(r'::binary_search(_by|_by_key)?$', idx[1][1]):
         return False
     c = idx[1]
     target = vec_place(px, st, args[0])
